@@ -326,6 +326,7 @@ type vReq struct {
 	Host     string
 	RawBody  []byte
 	BodyDelay time.Duration // the body arrives that much later than the headers
+	PeerCerts []*x509.Certificate // certificates the client presented that were NOT verified (no chain was built)
 	BodyType string
 	NoTLS    bool
 }
@@ -446,6 +447,8 @@ func (w *vWorld) buildRequest(q vReq) *http.Request {
 		req.TLS = &tls.ConnectionState{HandshakeComplete: true, Version: tls.VersionTLS13, VerifiedChains: q.Chains}
 		if len(q.Chains) > 0 {
 			req.TLS.PeerCertificates = q.Chains[0][:1]
+		} else if len(q.PeerCerts) > 0 {
+			req.TLS.PeerCertificates = q.PeerCerts
 		}
 	} else {
 		req.TLS = nil
